@@ -34,7 +34,7 @@ STUBS_DOC = [
     "float/int in abstract_shexing_strategy, direct_shexing_strategy, direct_and_inverse_shexing_strategy, ratio_freq_serializer -> symx.sym_float/sym_int (identity on plain numbers)",
     "float in utils.triple_yielders and big_ttl_triples_yielder -> real float() on concrete text, HarnessError on symbolic characters",
     "rdflib.plugins.sparql.prepareQuery as seen by node_selector_parser -> no-op (syntax check of SPARQL selectors is outside symbolic reach)",
-    "compiled regexes _OTHER_BLANKS,_SEVERAL_BLANKS,_QUOTES_FOR_LITERALS,_INIT_INLINE_COMMENT,_SEP_CHARS,_WHITES_REGEX,_INIT_URI_PATTERN -> RegexShim parsed from the current pattern text (delegates to the original on plain str)",
+    "every compiled regex held in a module global of shexer.* and the module-level `re` of those modules -> symx.symre.SymRegex / RE_PROXY: the pattern is parsed by CPython's own re parser from its current text and matched by a backtracking matcher that forks on symbolic characters (same match positions and groups as re; validated against re by the self-test); identity on plain str",
 ]
 
 
@@ -74,15 +74,40 @@ def install():
         _SAVED.append((mod, "float", mod.__dict__.get("float", _MISSING)))
         mod.float = str_float
     for m, name in REGEX_SHIMS:
-        mod = importlib.import_module(m)
-        obj = getattr(mod, name)
-        if not isinstance(obj, RegexShim):
-            _SAVED.append((mod, name, obj))
-            setattr(mod, name, RegexShim(obj))
+        importlib.import_module(m)
+    import sys
+    for name, mod in list(sys.modules.items()):
+        if name == "shexer" or name.startswith("shexer."):
+            wrap_regexes(mod)
+    from symx import instrument
+    if _on_module_loaded not in instrument.POST_IMPORT_HOOKS:
+        instrument.POST_IMPORT_HOOKS.append(_on_module_loaded)
     nsp = importlib.import_module("shexer.io.shape_map.node_selector.node_selector_parser")
     _SAVED.append((nsp, "sparql", nsp.sparql))
     nsp.sparql = _NoSparql()
     _DONE[0] = True
+
+
+def wrap_regexes(mod):
+    """Every compiled pattern held in a global of the module, and the module's `re`, accept strings with symbolic characters afterwards
+    (symx.symre: CPython's own pattern parser + a backtracking matcher that forks on symbolic characters; identity on plain str).
+    Generic on purpose: a regex added or edited in /repo is picked up without touching the harness."""
+    import re as _re
+    from symx import SymRegex, RE_PROXY
+    if mod is None or not hasattr(mod, "__dict__"):
+        return
+    for name, obj in list(vars(mod).items()):
+        if isinstance(obj, _re.Pattern):
+            _SAVED.append((mod, name, obj))
+            setattr(mod, name, SymRegex(obj))
+        elif obj is _re:
+            _SAVED.append((mod, name, obj))
+            setattr(mod, name, RE_PROXY)
+
+
+def _on_module_loaded(mod):
+    if _DONE[0]:
+        wrap_regexes(mod)
 
 
 class _NoSparql:
